@@ -21,7 +21,7 @@ import typing as T
 from ..core import Undecided, attr_chain, norm, short, names_in, walk_no_nested
 from ..paths import enumerate_paths, Path
 from ..consteval import fold_expr
-from .c02_model import NodeModel, fixed_spellings, params_of, MPARSER
+from .c02_model import model_for, NodeModel, fixed_spellings, params_of, bind_call, unroll_tables, MPARSER
 
 PREV = 'self.previous'
 
@@ -122,10 +122,10 @@ class Analyzer:
         self.seed = seed or {}
         self.mod = repo.module(MPARSER)
         self.cls = cls
-        self.model = model or NodeModel(repo)
+        self.model = model or model_for(repo)
         self.fixed = fixed_spellings(repo, self.model)
         self.free = self.model.carrier_free()
-        self.methods = dict(self.mod.methods(cls))
+        self.methods = {n: unroll_tables(f, self.mod) for n, f in self.mod.methods(cls).items()}   # constant-table loops enumerated
         self.primitive = self._find_primitive()
         self.ctor_wrapper = self._find_ctor_wrapper()
         self.exempt = self._exempt_kinds()
@@ -287,7 +287,8 @@ class Analyzer:
         st.toks.append(Tok(None, None, False, {PREV}, entry=True))
         for i, a in enumerate((fn.args.posonlyargs + fn.args.args)[1:]):
             if a.annotation is not None and self.model._field_kind(a.annotation):
-                st.res.append(Res(None, f'parameter {a.arg}', False, {a.arg}, param=i))
+                cn = [n for n in names_in(a.annotation) if n in self.model.classes]
+                st.res.append(Res(None, cn[0] if len(cn) == 1 else f'parameter {a.arg}', False, {a.arg}, param=i))
         return st
 
     def _exit(self, st: St, p: Path) -> Out:
@@ -457,6 +458,15 @@ class Analyzer:
                     self.transfer(v[1], root, s2, target)
                 out.append(s2)
             return out
+        if isinstance(target, (ast.Tuple, ast.List)) and all(isinstance(t, ast.Name) for t in target.elts) and not aug:
+            out = []
+            for s2, v in self.ev(value, st):
+                if v[0] in ('res', 'tok', 'cur') and not (v[0] == 'res' and s2.res[v[1]].vac):
+                    raise Undecided(f'{self.cls}.{self.fn}: a token or fragment is unpacked by `{short(target)} = ...`')
+                for t in target.elts:
+                    self.unbind(t.id, s2)  # type: ignore[attr-defined]
+                out.append(s2)
+            return out
         raise Undecided(f'{self.cls}.{self.fn}: assignment target `{short(target)}`')
 
     def bind(self, name: str, v: T.Tuple[T.Any, ...], st: St) -> None:
@@ -597,13 +607,11 @@ class Analyzer:
         f = e.func
         ch = attr_chain(f)
         if ch == 'self.' + self.ctor_wrapper:
-            if not e.args or not isinstance(e.args[0], ast.Name) or e.args[0].id not in self.model.classes or e.keywords:
+            if not e.args or not isinstance(e.args[0], ast.Name) or e.args[0].id not in self.model.classes:
                 raise Undecided(f'{self.cls}.{self.fn}: `{short(e)}`: node class is not a literal class name')
-            return [(s2, self.ctor(e.args[0].id, vals, s2, True, e)) for s2, vals in self.evs(e.args[1:], st)]
+            return self._ctor_call(e.args[0].id, e, 1, st, True)
         if isinstance(f, ast.Name) and f.id in self.model.classes:
-            if e.keywords:
-                raise Undecided(f'{self.cls}.{self.fn}: keyword arguments in `{short(e)}`')
-            return [(s2, self.ctor(f.id, vals, s2, False, e)) for s2, vals in self.evs(e.args, st)]
+            return self._ctor_call(f.id, e, 0, st, False)
         if ch is not None and ch.startswith('self.') and ch.count('.') == 1 and ch[5:] in self.methods:
             name = ch[5:]
             if name == self.primitive:
@@ -616,6 +624,7 @@ class Analyzer:
         pre = [recv] if recv is not None and self._effectful(recv) else []
         out = []
         args = list(e.args) + [k.value for k in e.keywords]
+        keys: T.List[T.Union[int, str]] = list(range(len(e.args))) + [k.arg or '?' for k in e.keywords]
         for s2, vals in self.evs(pre + args, st):
             vals = vals[len(pre):]
             rch = attr_chain(recv) if recv is not None else None
@@ -631,16 +640,41 @@ class Analyzer:
                     if r.done:
                         continue
                     raise Undecided(f'{self.cls}.{self.fn}: a tree fragment is passed to `{short(e)}`')
-                stores = self.model.method_stores(f.attr, i) if i < len(e.args) else None  # type: ignore[union-attr]
+                # receiver type: an attribute of something (a list/dict field) or a list local takes the builtin mutators;
+                # a local holding a node of a known class resolves the method in that class
+                rcls = None
+                if '.' not in rch:
+                    j = s2.res_of(rch)
+                    rcls = s2.res[j].desc if j is not None else None
+                builtin = ('.' in rch or rcls == 'list') and f.attr in ('append', 'insert', 'extend', 'add')  # type: ignore[union-attr]
+                stores = 'yes' if builtin else self.model.method_stores(f.attr, keys[i], rcls if rcls in self.model.classes else None)  # type: ignore[union-attr]
                 if stores is None:
                     if f.attr in ('append', 'insert', 'extend', 'add'):  # type: ignore[union-attr]
-                        stores = True
+                        stores = 'yes'
                     else:
                         raise Undecided(f'{self.cls}.{self.fn}: a tree fragment is passed to the unknown method `{short(e)}`')
-                if stores:
+                if stores == 'unknown':
+                    raise Undecided(f'{self.cls}.{self.fn}: what `{f.attr}` does with the fragment passed in `{short(e)}` is not understood')  # type: ignore[union-attr]
+                if stores == 'yes':
                     self.transfer(v[1], rch.split('.')[0], s2, e)
             out.append((s2, self.NONE))
         return out
+
+    def _bound(self, e: ast.Call, params: T.List[str], skip: int, st: St) -> T.List[T.Tuple[St, T.List[T.Any]]]:
+        """Evaluate the arguments of `e` in source order and return their values aligned to `params` (position or keyword)."""
+        b = bind_call(e, params, skip)
+        if b is None:
+            raise Undecided(f'{self.cls}.{self.fn}: cannot bind the arguments of `{short(e)}` to ({", ".join(params)})')
+        order = list(e.args[skip:]) + [k.value for k in e.keywords]
+        out = []
+        for s2, vals in self.evs(order, st):
+            byid = {id(x): v for x, v in zip(order, vals)}
+            out.append((s2, [byid[id(a)] if a is not None else self.NONE for a in b]))
+        return out
+
+    def _ctor_call(self, cls: str, e: ast.Call, skip: int, st: St, wrapped: bool) -> T.List[T.Tuple[St, T.Tuple[T.Any, ...]]]:
+        params = [p for p, _ in self.model.roles(cls)]
+        return [(s2, self.ctor(cls, vals, s2, wrapped, e)) for s2, vals in self._bound(e, params, skip, st)]
 
     def ctor(self, cls: str, vals: T.List[T.Any], st: St, wrapped: bool, node: ast.Call) -> T.Tuple[T.Any, ...]:
         roles = self.model.roles(cls)
@@ -662,6 +696,8 @@ class Analyzer:
                 carries = True
                 if v[0] == 'res':
                     st.res[v[1]].done = True
+            elif role == 'unknown' and v[0] in ('res', 'tok', 'tokval', 'cur'):
+                raise Undecided(f'{self.cls}.{self.fn}: {cls}.__init__ hands its parameter `{pname}` on in a way the model does not follow')
         if fixed is not None:
             carries = True
             cand = [i for i, t in enumerate(st.toks) if not t.done and not t.entry and t.kind == fixed]
@@ -741,9 +777,11 @@ class Analyzer:
 
     def apply(self, name: str, e: ast.Call, st: St, want: T.Optional[bool]) -> T.List[T.Tuple[St, T.Tuple[T.Any, ...]]]:
         out: T.List[T.Tuple[St, T.Tuple[T.Any, ...]]] = []
-        if e.keywords:
-            raise Undecided(f'{self.cls}.{self.fn}: keyword arguments in `{short(e)}`')
-        for s1, vals in self.evs(e.args, st):
+        cparams = params_of(self.methods[name])[1:]
+        bound = bind_call(e, cparams)
+        if bound is None:
+            raise Undecided(f'{self.cls}.{self.fn}: cannot bind the arguments of `{short(e)}`')
+        for s1, vals in self._bound(e, cparams, 0, st):
             outs = sorted(self.summ[name], key=repr)
             for n_o, o in enumerate(outs):
                 if want is not None and o.ret in ('T', 'F') and (o.ret == 'T') != want:
@@ -765,7 +803,7 @@ class Analyzer:
                     self._clobber(s, e)
                     kind = o.kind
                     if isinstance(kind, tuple) and kind and kind[0] == 'param':
-                        kind = self.kind_from_expr(e.args[kind[1]]) if kind[1] < len(e.args) else None
+                        kind = self.kind_from_expr(bound[kind[1]]) if kind[1] < len(bound) and bound[kind[1]] is not None else None
                     done = (not o.handover) or s.N or self.is_exempt(kind)
                     s.toks.append(Tok(kind, e, done, {PREV} | (s.cur if o.consumed == 1 else set())))
                     s.N = False
@@ -781,7 +819,8 @@ class Analyzer:
                 if o.ret in ('T', 'F'):
                     val: T.Tuple[T.Any, ...] = ('truth', o.ret == 'T')
                 elif o.ret == 'res':
-                    s.res.append(Res(e, name + '()', False, set()))
+                    rn = [n for n in names_in(self.methods[name].returns) if n in self.model.classes] if self.methods[name].returns is not None else []
+                    s.res.append(Res(e, rn[0] if len(rn) == 1 and rn[0] != self.model.root else name + '()', False, set()))
                     self.site(e, 'fragment')
                     val = ('res', len(s.res) - 1)
                 else:
